@@ -131,7 +131,7 @@ def build(r, cls):
     return m
 
 
-def oracle(m, fails, where, second_call=True, subject=None):
+def oracle(m, fails, where, second_call=True, subject=None, subset=None):
     """runs add_implicit_hydrogens on m and checks everything; returns label counts"""
     import molli as ml
     from molli.chem import Element
@@ -154,11 +154,23 @@ def oracle(m, fails, where, second_call=True, subject=None):
             tot += b.f_order if o is None else o
         bv0[id(a)] = tot
     hint_free = all(v is None for v in hints.values())
+    chosen = None
+    if subset is not None:
+        # the documented per-atom form add_implicit_hydrogens(*atoms): only the named (group 13-16) atoms are completed
+        cand = [a for a in atoms0 if int(a.element) in GROUP]
+        chosen = [a for k, a in enumerate(cand) if (subset[0] >> (k % 16)) & 1]
+        if not chosen:
+            chosen = None
     try:
         with warnings.catch_warnings():
             warnings.simplefilter("ignore")
             with np.errstate(all="ignore"):
-                m.add_implicit_hydrogens()
+                if chosen is None:
+                    m.add_implicit_hydrogens()
+                else:
+                    # Atom objects only: integer indices raise AttributeError on this tree although the annotation says
+                    # AtomLike - an API wart outside what the property states, noted in DESIGN.md, not asserted
+                    m.add_implicit_hydrogens(*(chosen if subset[1] else reversed(chosen)))
     except Exception as e:
         s = exc_sig(e)
         if s is None:
@@ -214,6 +226,10 @@ def oracle(m, fails, where, second_call=True, subject=None):
         hint = hints[id(a)]
         exp = hint if hint is not None else expected_h(z, a.formal_charge, a.formal_spin, bv0[id(a)])
         n_h = len(got.get(id(a), []))
+        if chosen is not None and not any(a is c_ for c_ in chosen):
+            if n_h or (hint is not None and "__implicit_hydrogens" not in a.attrib):
+                fails.append(Fail("atom-not-named-in-the-call-was-touched", f"{where}: {a.element.symbol} got {n_h} H / hint consumed although only {len(chosen)} other atom(s) were named"))
+            continue
         cls_lab = f"neighbours={min(nb, 4)},H={exp}" + (",hint" if hint is not None else "")
         labels[cls_lab] = labels.get(cls_lab, 0) + 1
         if n_h != exp:
@@ -250,7 +266,7 @@ def oracle(m, fails, where, second_call=True, subject=None):
                     fails.append(Fail(f"hydrogen-points-towards-neighbours:neighbours={min(nb, 4)}:H={n_h}", f"{where}: {a.element.symbol}: (H-c).(centroid-c) = {float(np.dot(hp - cpos, cent - cpos)):.3f}"))
                     break
     # ---- idempotence on hint-free molecules
-    if second_call and hint_free and not fails:
+    if second_call and hint_free and chosen is None and not fails:
         n1 = m.n_atoms
         with warnings.catch_warnings():
             warnings.simplefilter("ignore")
@@ -267,7 +283,7 @@ def check_grown(r) -> list[Fail]:
     cls = ml.Molecule if r["cls"] == "Molecule" else ml.Structure
     m = build(r, cls)
     fails: list[Fail] = []
-    labels = oracle(m, fails, f"grown[{r['orient']}]")
+    labels = oracle(m, fails, f"grown[{r['orient']}]" + (" named-atoms-form" if r.get("subset") else ""), subset=r.get("subset"))
     tally(labels=labels)
     seen, out = set(), []
     for f in fails:
@@ -290,7 +306,7 @@ def classify_grown(r):
             e = s["hint"] if s["hint"] is not None else expected_h(s["el"], s["fc"], s["spin"], bv)
             if e > 0:
                 nt = True
-    return nt, ["cls=" + r["cls"], "orient=" + r["orient"]]
+    return nt, ["cls=" + r["cls"], "orient=" + r["orient"], "call=" + ("named_atoms" if r.get("subset") else "all_atoms")]
 
 
 def strat_grown(tier):
@@ -308,6 +324,7 @@ def strat_grown(tier):
     return st.fixed_dictionaries({
         "cls": st.sampled_from(["Molecule", "Molecule", "Structure"]), "root": root, "nodes": st.lists(node, min_size=0, max_size=12),
         "gseed": st.integers(0, 10**6), "orient": st.sampled_from(["random", "random", "as_built", "first_bond_along_z"]),
+        "subset": st.one_of(st.none(), st.none(), st.tuples(st.integers(1, 2**16 - 1), st.booleans()).map(list)),
         "decl": st.one_of(st.none(), st.tuples(st.integers(-2, 2), st.integers(1, 4)).map(list)),
     })
 
